@@ -32,7 +32,7 @@ func (w onceWaiter) Ready() bool { return w.o.state != 1 }
 //go:norace
 func (o *Once) init() {
 	if o.rc == nil {
-		o.rc = new(byte)
+		o.rc = vs.SyncAddr()
 		o.id = vs.NewObj()
 	}
 }
@@ -84,7 +84,7 @@ func (w mutexWaiter) Ready() bool { return !w.m.locked }
 //go:norace
 func (m *Mutex) init() {
 	if m.rc == nil {
-		m.rc = new(byte)
+		m.rc = vs.SyncAddr()
 		m.id = vs.NewObj()
 	}
 }
@@ -149,8 +149,8 @@ func (w rwR) Ready() bool { return !w.m.writer }
 //go:norace
 func (m *RWMutex) init() {
 	if m.rc == nil {
-		m.rc = new(byte)
-		m.rcR = new(byte)
+		m.rc = vs.SyncAddr()
+		m.rcR = vs.SyncAddr()
 		m.id = vs.NewObj()
 	}
 }
@@ -224,7 +224,7 @@ func (w wgWaiter) Ready() bool { return w.w.n == 0 }
 //go:norace
 func (w *WaitGroup) init() {
 	if w.rc == nil {
-		w.rc = new(byte)
+		w.rc = vs.SyncAddr()
 		w.id = vs.NewObj()
 	}
 }
